@@ -17,6 +17,21 @@ type textSpec struct {
 	Log     map[string][]string // method -> expected handschema log
 	Nick    string
 	Comment string
+	// Ops: for a text with several operations, what it means per operationName ("" = none given);
+	// a name that is not listed (and "" when there are several operations) is an error.
+	Ops map[string]textSpec
+}
+
+// meaning of an exact text when requested with operationName op.
+func meaning(text, op string) textSpec {
+	spec := textInfo[text]
+	if spec.Ops == nil {
+		return spec
+	}
+	if m, ok := spec.Ops[op]; ok {
+		return m
+	}
+	return querySpec(false, "")
 }
 
 var textInfo = map[string]textSpec{
@@ -62,6 +77,9 @@ func nick(s string) string {
 	if n, ok := nicks[s]; ok {
 		return n
 	}
+	if len(s) > 80 {
+		return fmt.Sprintf("%q...[%d bytes, sha256 %s]", s[:32], len(s), sha(s)[:8])
+	}
 	return fmt.Sprintf("%q", s)
 }
 
@@ -72,6 +90,7 @@ type Event struct {
 	Kind   string `json:"kind"` // event class, used in violation signatures
 	Method string `json:"method"`
 	Text   string `json:"text"`         // "" = no query text
+	Op     string `json:"op,omitempty"` // operationName, "" = none
 	PQ     string `json:"pq,omitempty"` // raw JSON value of extensions.persistedQuery, "" = no extension
 
 	Ext     string `json:"ext"` // none | null | malformed | ok
@@ -190,9 +209,13 @@ func buildAlphabet() []Event {
 // every member is requested by text, text+hash and hash only after every sibling was seen first.
 
 type family struct {
-	ID    string
-	Why   string
-	Texts []string
+	ID           string   `json:"id"`
+	Why          string   `json:"why"`
+	Texts        []string `json:"-"`
+	Ops          []string `json:"ops,omitempty"`   // operation names to request with (nil = none)
+	Heavy        bool     `json:"heavy,omitempty"` // long texts: POST only, fewer configs in the quick tier
+	Sizes        []int    `json:"text_bytes,omitempty"`
+	ThoroughOnly bool     `json:"thorough_only,omitempty"`
 }
 
 var families = []family{
@@ -258,9 +281,67 @@ var familyMeaning = map[string]textSpec{
 	"{ a\r\n b }":                   specAB,
 }
 
+// padded returns a text of exactly n bytes that means `{a}`: the padding is a # comment.
+func padded(n int) string {
+	const head, tail = "{a #", "\n}"
+	return head + strings.Repeat("p", n-len(head)-len(tail)) + tail
+}
+
+// lengthFamilies: texts just below / at / above sizes at which a cache key might plausibly stop
+// being the text itself (truncation, hashing, a size class), and pairs of equally long texts that
+// share a head longer than the threshold and differ only in their last bytes - in meaning, too.
+func lengthFamilies() []family {
+	var out []family
+	for _, kib := range []int{1, 2, 4, 64} {
+		t := kib << 10
+		near := family{ID: fmt.Sprintf("len%dk", kib), Heavy: true, ThoroughOnly: kib == 64, // quick keeps the 64 KiB pair
+			Why:   fmt.Sprintf("same meaning, lengths %d / %d / %d bytes", t-1, t, t+1),
+			Texts: []string{padded(t - 1), padded(t), padded(t + 1)}}
+		for _, x := range near.Texts {
+			familyMeaning[x] = specA
+		}
+		head := "{ #" + strings.Repeat("h", t+64) + "\n"
+		pair := family{ID: fmt.Sprintf("tail%dk", kib), Heavy: true,
+			Why:   fmt.Sprintf("equal length, common head of %d bytes, different last bytes and different meaning", len(head)),
+			Texts: []string{head + " a }", head + " b }"}}
+		familyMeaning[pair.Texts[0]] = specA
+		familyMeaning[pair.Texts[1]] = querySpec(true, `{"b":null}`, "rootfield:Query.b", "resolver:Query.b()")
+		out = append(out, near, pair)
+	}
+	// the same without comments: many aliased fields, the two texts differ in the very last field
+	var body, data strings.Builder
+	var log []string
+	for i := 0; body.Len() < 2<<10+64; i++ {
+		fmt.Fprintf(&body, " f%03d:a", i)
+		fmt.Fprintf(&data, `"f%03d":"A",`, i)
+		log = append(log, "rootfield:Query.a", "resolver:Query.a()")
+	}
+	ta, tb := "{"+body.String()+" z:a }", "{"+body.String()+" z:b }"
+	familyMeaning[ta] = querySpec(true, "{"+data.String()+`"z":"A"}`, append(append([]string(nil), log...), "rootfield:Query.a", "resolver:Query.a()")...)
+	familyMeaning[tb] = querySpec(true, "{"+data.String()+`"z":null}`, append(append([]string(nil), log...), "rootfield:Query.b", "resolver:Query.b()")...)
+	out = append(out, family{ID: "fields2k", Heavy: true,
+		Why: "equal length, common head above 2 KiB made of aliased fields, the last field differs", Texts: []string{ta, tb}})
+	return out
+}
+
+// multi-operation texts: the SAME text (and hash) means different things per operationName
+const (
+	multiAB = "query A{a} query B{name}"
+	multiBA = "query A{name} query B{a}"
+)
+
 func init() {
-	for _, f := range families {
+	nameSpec := querySpec(true, `{"name":"N"}`, "rootfield:Query.name", "resolver:Query.name()")
+	familyMeaning[multiAB] = textSpec{Valid: true, Ops: map[string]textSpec{"A": specA, "B": nameSpec}}
+	familyMeaning[multiBA] = textSpec{Valid: true, Ops: map[string]textSpec{"A": nameSpec, "B": specA}}
+	families = append(families, family{ID: "multiop", Ops: []string{"A", "B", ""},
+		Why:   "one text with two operations: each request runs the operation IT names (none named = error), whatever an earlier request selected",
+		Texts: []string{multiAB, multiBA}})
+	families = append(families, lengthFamilies()...)
+	for fi := range families {
+		f := &families[fi]
 		for i, t := range f.Texts {
+			f.Sizes = append(f.Sizes, len(t))
 			spec, ok := familyMeaning[t]
 			if !ok {
 				panic("family text without a meaning: " + t)
@@ -275,33 +356,52 @@ func init() {
 	}
 }
 
-// familyAlphabet: every member as text only, text + own hash, text + hash of each sibling, hash
-// only; POST block then GET block.
+// familyAlphabet: every member (with every operation name of the family) as text only, text + own
+// hash, hash only; text + hash of each sibling; POST block then GET block (heavy families: POST).
 func familyAlphabet(f family) []Event {
 	var out []Event
-	for _, method := range []string{"POST", "GET"} {
-		ev := func(kind, text, hash, label string) {
-			e := Event{Name: method + " " + label, Kind: f.ID + ":" + kind, Method: method, Text: text, Ext: "none"}
+	ops := f.Ops
+	if ops == nil {
+		ops = []string{""}
+	}
+	methods := []string{"POST", "GET"}
+	if f.Heavy {
+		methods = methods[:1]
+	}
+	for _, method := range methods {
+		ev := func(kind, text, hash, op, label string) {
+			if op != "" {
+				label += " op=" + op
+			} else if f.Ops != nil {
+				label += " op=none"
+			}
+			e := Event{Name: method + " " + label, Kind: f.ID + ":" + kind, Method: method, Text: text, Op: op, Ext: "none"}
 			if hash != "" {
 				e.PQ, e.Ext, e.Version, e.Hash = pqJSON(1, hash), "ok", 1, hash
 			}
 			out = append(out, e)
 		}
 		for _, t := range f.Texts {
-			ev("text-only", t, "", nick(t))
+			for _, op := range ops {
+				ev("text-only", t, "", op, nick(t))
+			}
 		}
 		for _, t := range f.Texts {
-			ev("text+own-hash", t, sha(t), nick(t)+"+"+nick(sha(t)))
+			for _, op := range ops {
+				ev("text+own-hash", t, sha(t), op, nick(t)+"+"+nick(sha(t)))
+			}
 		}
 		for _, t := range f.Texts {
 			for _, u := range f.Texts {
 				if t != u {
-					ev("text+sibling-hash", t, sha(u), nick(t)+"+"+nick(sha(u)))
+					ev("text+sibling-hash", t, sha(u), ops[0], nick(t)+"+"+nick(sha(u)))
 				}
 			}
 		}
 		for _, t := range f.Texts {
-			ev("hash-only", "", sha(t), "only "+nick(sha(t)))
+			for _, op := range ops {
+				ev("hash-only", "", sha(t), op, "only "+nick(sha(t)))
+			}
 		}
 	}
 	return out
